@@ -492,3 +492,28 @@ Proof.
   - apply Forall_forall. intros x Hx. apply G. apply I. right. exact Hx.
   - exact (coherent_incl calls (aa :: pre) I C).
 Qed.
+
+(* ---- the listing order of the map (Go map iteration; it decides the trie path of indexes with equal names) ---- *)
+Lemma concat_snd_perm (aa aa' : arch_map) x : Permutation aa' aa ->
+  In x (List.concat (List.map snd aa')) -> In x (List.concat (List.map snd aa)).
+Proof.
+  intros P H. apply in_concat in H. destruct H as [l [Hl Hx]]. apply in_concat. exists l. split; [|exact Hx].
+  exact (Permutation_in l (Permutation_map snd P) Hl).
+Qed.
+
+Lemma indexes_of_cons aa l x : In x (indexes_of (aa :: l)) <-> In x (List.concat (List.map snd aa)) \/ In x (indexes_of l).
+Proof. unfold indexes_of. simpl. rewrite in_app_iff. reflexivity. Qed.
+
+Theorem cache_listing_order hist aa aa' :
+  Permutation aa' aa -> go_map aa -> Forall go_map hist -> coherent (aa :: hist) ->
+  forall o, In o (snd (dq_cache_get (run_calls hist) aa')) <-> In o (dq_objs aa).
+Proof.
+  intros P N NH C o.
+  assert (N' : go_map aa').
+  { unfold go_map in *. exact (Permutation_NoDup (Permutation_map fst (Permutation_sym P)) N). }
+  assert (C' : coherent (aa' :: hist)).
+  { intros x y Hx Hy. apply C; apply indexes_of_cons; [apply indexes_of_cons in Hx; destruct Hx as [Hx|Hx] | apply indexes_of_cons in Hy; destruct Hy as [Hy|Hy]];
+      try (right; assumption); left; eapply concat_snd_perm; eauto. }
+  rewrite (cache_own_grouping hist aa' N' NH C' o).
+  split; [apply dq_objs_perm; exact P | apply dq_objs_perm; apply Permutation_sym; exact P].
+Qed.
